@@ -761,6 +761,23 @@ def gen_frontend_tables(repo, outdir, notes):
     c = find_class_node(nm, "NadaType")
     for mname in ("__init__", "to_mir", "class_to_mir", "__bool__"):
         text += f"Definition src_NadaType_{mname.strip('_')} : list string :=\n  {stmts_src(method(c, mname).body)}.\n\n"
+    # compile.py: entry points and the __main__ decision tree; timer.py: the clocks
+    cp = Module(repo, "nada_dsl/compile.py")
+    CUR_FILE = cp.rel
+    cpf = {f.name: f for f in cp.funcs}
+    for name in ("compile_script", "compile_string", "print_output"):
+        text += f"Definition src_{name} : list string :=\n  {stmts_src(cpf[name].body)}.\n\n"
+    mains = [n for n in cp.tree.body if isinstance(n, ast.If) and ast.unparse(n.test) == "__name__ == '__main__'"]
+    if len(mains) != 1:
+        raise ExtractError(cp.rel, 0, "no unique __main__ block")
+    text += f"Definition src_compile_main : list string :=\n  {stmts_src(mains[0].body)}.\n\n"
+    tm = Module(repo, "nada_dsl/timer.py")
+    CUR_FILE = tm.rel
+    for cname, ms in (("Clock", ["start", "stop", "report"]), ("DefaultClock", ["__init__", "start", "stop", "report"]),
+                      ("Timer", ["__init__", "enable", "is_enabled", "start", "stop", "report"])):
+        c = find_class_node(tm, cname)
+        for mname in ms:
+            text += f"Definition src_{cname}_{mname.strip('_')} : list string :=\n  {stmts_src(method(c, mname).body)}.\n\n"
     write_if_changed(os.path.join(outdir, "GenFrontend.v"), text)
 
 
